@@ -188,21 +188,24 @@ func capHex(b []byte) string {
 
 // event is one observation made by a harness-installed handler or session callback in the listener process.
 type event struct {
-	K      string   `json:"k"` // coa | disc | term | policy
-	SID    string   `json:"sid,omitempty"`
-	User   string   `json:"user,omitempty"`
-	CS     string   `json:"cs,omitempty"`
-	FIP    string   `json:"fip,omitempty"`
-	NAS    string   `json:"nas,omitempty"`
-	Filter string   `json:"filter,omitempty"`
-	STO    uint32   `json:"sto,omitempty"`
-	ITO    uint32   `json:"ito,omitempty"`
-	Attrs  []evAttr `json:"attrs,omitempty"`
-	OK     bool     `json:"ok"`
-	EC     uint32   `json:"ec,omitempty"`
-	Msg    string   `json:"msg,omitempty"`
-	Reply  string   `json:"r,omitempty"` // control replies share the line format
-	Q      *quiesce `json:"q,omitempty"`
+	K      string            `json:"k"` // coa | disc | term | policy
+	SID    string            `json:"sid,omitempty"`
+	User   string            `json:"user,omitempty"`
+	CS     string            `json:"cs,omitempty"`
+	FIP    string            `json:"fip,omitempty"`
+	NAS    string            `json:"nas,omitempty"`
+	Filter string            `json:"filter,omitempty"`
+	STO    uint32            `json:"sto,omitempty"`
+	ITO    uint32            `json:"ito,omitempty"`
+	Attrs  []evAttr          `json:"attrs,omitempty"`
+	OK     bool              `json:"ok"`
+	EC     uint32            `json:"ec,omitempty"`
+	Msg    string            `json:"msg,omitempty"`
+	Reply  string            `json:"r,omitempty"` // control replies share the line format
+	Q      *quiesce          `json:"q,omitempty"`
+	Cb     string            `json:"cb,omitempty"`  // k == "enter": which session-changing callback is being held (coa | disc | policy | term)
+	Seq    int               `json:"seq,omitempty"` // k == "enter": handle for releasing it
+	Tab    map[string][2]int `json:"tab,omitempty"` // reply to T: session (hex) -> {policy changes, terminations} applied so far
 }
 
 type evAttr struct {
@@ -214,6 +217,13 @@ type quiesce struct {
 	Quiescent bool   `json:"quiescent"`
 	RxQ       int    `json:"rxq"`
 	Loop      string `json:"loop"`
+	Readers   int    `json:"readers"`  // goroutines of package radius parked in a socket read
+	Busy      int    `json:"busy"`     // goroutines of package radius neither parked in a read nor on a channel
+	Inflight  int    `json:"inflight"` // harness handlers entered and not returned
+	Polls     int    `json:"polls,omitempty"`
+	Blocked   int    `json:"blocked,omitempty"`
+	Consumed  bool   `json:"consumed,omitempty"`
+	Queued    bool   `json:"queued,omitempty"`
 }
 
 type outcome struct {
@@ -239,6 +249,10 @@ func judge(tc *tcase, secret []byte, mode string, o *outcome) bool {
 		}
 	}
 	clean := true
+	mult := tc.mult // how many times this very datagram was sent (overlap workload: replays); each copy may be acted on
+	if mult < 1 {
+		mult = 1
+	}
 	wit := func() map[string]any {
 		rs := make([]string, len(o.resps))
 		for i, r := range o.resps {
@@ -257,6 +271,12 @@ func judge(tc *tcase, secret []byte, mode string, o *outcome) bool {
 		}
 		if o.crashMsg != "" {
 			w["listener_stderr"] = o.crashMsg
+		}
+		if tc.ctx != nil {
+			w["episode"] = tc.ctx
+		}
+		if mult > 1 {
+			w["times_sent"] = mult
 		}
 		return w
 	}
@@ -322,15 +342,15 @@ func judge(tc *tcase, secret []byte, mode string, o *outcome) bool {
 			v(compLoop, "if-authentic/response-once", "zero-responses"+pad, fmt.Sprintf("no ACK/NAK for an authentic, well-formed request (code %d, %d attributes, family %s)", d[0], len(attrs), tc.fam))
 		}
 	}
-	if len(handlers) > 1 {
-		v(compLoop, "if-authentic/handler-once", "several-calls"+pad, fmt.Sprintf("%d handler invocations for one authentic request", len(handlers)))
+	if len(handlers) > mult {
+		v(compLoop, "if-authentic/handler-once", "several-calls"+pad, fmt.Sprintf("%d handler invocations for an authentic request sent %d time(s)", len(handlers), mult))
 	}
 	if isReq && L <= 4096 && len(handlers) >= 1 {
 		if len(o.resps) == 0 && st != attrsStrict && o.settled != "crash" {
 			v(compLoop, "if-authentic/response-once", "handler-called-but-zero-responses"+pad, "a handler was invoked but no ACK/NAK was sent")
 		}
-		if len(o.resps) > 1 {
-			v(compLoop, "if-authentic/response-once", "several-responses"+pad, fmt.Sprintf("%d datagrams sent back for one authentic request", len(o.resps)))
+		if len(o.resps) > mult {
+			v(compLoop, "if-authentic/response-once", "several-responses"+pad, fmt.Sprintf("%d datagrams sent back for an authentic request sent %d time(s)", len(o.resps), mult))
 		}
 	}
 	// the handler that ran must be the one for the request's code, and must have been shown authenticated content only
@@ -364,7 +384,7 @@ func judge(tc *tcase, secret []byte, mode string, o *outcome) bool {
 		if len(r) >= 2 && r[1] != d[1] {
 			v(compResp, "response/identifier-echoed", "identifier-differs", fmt.Sprintf("response identifier %d, request identifier %d", r[1], d[1]))
 		}
-		if len(r) >= 1 && isReq && len(handlers) == 1 {
+		if len(r) >= 1 && isReq && len(handlers) == 1 && !tc.noCodeCheck {
 			var want byte
 			switch {
 			case d[0] == 43 && handlers[0].OK:
